@@ -63,6 +63,20 @@ def judge(ctx, rng, t, v, annot_seed=None):
     if got != want:
         return ctx.violation('C04|pack-bytes-differ|%s%s' % (feat(t, v), '|annotated' if annot else ''),
                              'pytezos=%s model=%s' % (got.hex()[:160], want.hex()[:160]), case)
+    # second call on the same object, and a call after the key-hash serialisation (pack(legacy=True)) of the same object
+    try:
+        again = obj.pack()
+        obj.pack(legacy=True)
+        after = obj.pack()
+        fresh = D.mk_value(t, v, annot)
+        fresh.pack(legacy=True)
+        first_after_legacy = fresh.pack()
+    except Exception as e:
+        return ctx.violation('C04|repeated-pack-raises|%s|%s' % (type(e).__name__, feat(t, v)), repr(e)[:300], case)
+    ctx.count('repeated_pack_calls')
+    for name, b in (('second-call', again), ('after-legacy-pack-of-the-same-object', after), ('first-call-after-legacy-pack', first_after_legacy)):
+        if b != want:
+            return ctx.violation('C04|pack-bytes-differ|%s|%s' % (name, feat(t, v)), 'pytezos=%s model=%s' % (b.hex()[:160], want.hex()[:160]), case)
     cls = type(obj)
     try:
         back = cls.unpack(got)
